@@ -164,6 +164,20 @@ def targeted_pairs():
     out.append(("missing-vs-empty-file", st(inputs=["a", "b"], files={"a": None, "b": "x"}), st(inputs=["a", "b"], files={"a": "", "b": "x"})))
     out.append(("content-looks-like-frame", st(inputs=["a", "b"], files={"a": "\x01\x00\x00\x00\x00\x00\x00\x00\x00", "b": None}),
                 st(inputs=["a", "b"], files={"a": "", "b": ""})))
+    # weakened per-file frames ([presence][8-byte size][content]): pairs that collide as soon as one of the three parts is dropped
+    def be64(n):
+        return "".join(chr((n >> (8 * (7 - i))) & 255) for i in range(8))
+    for lo in (0, 2, 9):
+        body = "".join(chr(65 + (i % 23)) for i in range(248 + lo))
+        # without the presence byte of present files: 00 | size(256+lo) size(248+lo) body   ==   size(1) lo | size(248+lo) body
+        out.append(("frame:missing-marker-vs-size-header", st(inputs=["a", "b"], files={"a": None, "b": be64(248 + lo) + body}),
+                    st(inputs=["a", "b"], files={"a": chr(lo), "b": body})))
+    # without any marker for a missing file: which of the two files is the missing one
+    out.append(("frame:which-file-is-missing", st(inputs=["a", "b"], files={"a": None, "b": "x"}), st(inputs=["a", "b"], files={"a": "x", "b": None})))
+    out.append(("frame:which-file-is-missing", st(inputs=["a", "b", "c"], files={"a": "x", "b": None, "c": "y"}), st(inputs=["a", "b", "c"], files={"a": "x", "b": "y", "c": None})))
+    # without the size header: a presence byte inside the content
+    out.append(("frame:presence-byte-in-content", st(inputs=["a", "b"], files={"a": "x\x01", "b": ""}), st(inputs=["a", "b"], files={"a": "x", "b": "\x01"})))
+    out.append(("frame:presence-byte-in-content", st(inputs=["a", "b"], files={"a": "x\x00", "b": ""}), st(inputs=["a", "b"], files={"a": "x", "b": None})))
     # duplicates / order (must be equal)
     out.append(("dup-input", st(inputs=["a", "a"], files={"a": "x"}), st(inputs=["a"], files={"a": "x"})))
     out.append(("dup-input", st(inputs=["a", "b", "a"], files={"a": "x", "b": "y"}), st(inputs=["b", "a"], files={"a": "x", "b": "y"})))
@@ -519,9 +533,21 @@ def _cli_ws(rng):
             deps = rng.sample(labels, min(len(labels), rng.choice([0, 1, 2])))
             fp = [[k, rng.choice(FPV)] for k in rng.sample(["k", "K", "platform", "v1"], rng.choice([0, 0, 1, 2]))]
             out = "o_%s.out" % name
-            ts.append({"name": name, "command": "echo %s_%s_%d > %s" % (pk.replace("/", "_"), name, rng.randrange(100), out),
-                       "deps": deps, "inputs": ins, "excludes": [], "outputs": [out], "bin_output": "", "checks": [],
-                       "tags": rng.choice([[], [], ["multiplatform-cache"]]), "fingerprint": fp, "env": [], "platforms": None, "timeout": ""})
+            cmd = "echo %s_%s_%d > %s" % (pk.replace("/", "_"), name, rng.randrange(100), out)
+            outs = [out]
+            tags = rng.choice([[], [], ["multiplatform-cache"]])
+            shape = rng.choice(["file", "file", "file", "nocache", "nocache-dir", "no-outputs"])
+            if shape == "nocache":                       # not stored itself; its output hash feeds the keys of its dependants
+                tags = tags + ["no-cache"]
+            elif shape == "nocache-dir":
+                tags = tags + ["no-cache"]
+                outs = [out, "dir::d_%s" % name]
+                cmd += " && mkdir -p d_%s/sub && echo %d > d_%s/sub/f.txt" % (name, rng.randrange(100), name)
+            elif shape == "no-outputs":                  # its change hash stands in for its output hash
+                outs, cmd = [], "true"
+            ts.append({"name": name, "command": cmd,
+                       "deps": deps, "inputs": ins, "excludes": [], "outputs": outs, "bin_output": "", "checks": [],
+                       "tags": tags, "fingerprint": fp, "env": [], "platforms": None, "timeout": ""})
             labels.append("//%s:%s" % (pk, name))
         pkgs[pk] = {"targets": ts, "aliases": [], "default_platforms": None}
     return pkgs, files
@@ -636,6 +662,33 @@ def cli_section(ctx):
                           {"kind": "oracle", "oracle": "CLI: dependant of two dependencies that swap outputs gets a new key and fresh bytes", "algo": algo,
                            "res_txt": got, "expected": "Y\nX\n", "new_cache_keys_in_second_build": new_keys, "expected_new_keys": 3, "log": log2[-600:]},
                           signature="collision:dependency-outputs-swapped-between-dependencies")
+    # --- a dependency without outputs: its change hash is its output digest, so editing its input changes the dependant's state ------
+    for algo in ("xxh3", "sha256"):
+        base = ctx.scratch("nooutdep_" + algo)
+        ws = os.path.join(base, "ws")
+        for pk in ("lib", "app"):
+            os.makedirs(os.path.join(ws, pk), exist_ok=True)
+        open(os.path.join(ws, "grog.toml"), "w").write("")
+        open(os.path.join(ws, "lib", "BUILD.json"), "w").write(_json.dumps({"targets": [{"name": "files", "command": "true", "inputs": ["data.txt"]}]}))
+        open(os.path.join(ws, "app", "BUILD.json"), "w").write(_json.dumps({"targets": [{"name": "bundle", "command": "cat ../lib/data.txt > bundle.txt",
+                                                                               "dependencies": ["//lib:files"], "outputs": ["bundle.txt"]}]}))
+        open(os.path.join(ws, "lib", "data.txt"), "w").write("one\n")
+        r1, _ = _keys_after_build(grog, ws, os.path.join(base, "root"), algo)
+        open(os.path.join(ws, "lib", "data.txt"), "w").write("two\n")
+        r2, log2 = _keys_after_build(grog, ws, os.path.join(base, "root"), algo)
+        runs += 2
+        if r1 is None or r2 is None or r1[0] != 0 or r2[0] != 0:
+            ctx.notes.append("output-less dependency scenario unusable: %s %s" % (r1, r2))
+            continue
+        got = open(os.path.join(ws, "app", "bundle.txt")).read()
+        new_keys = len(set(r2[1]) - set(r1[1]))
+        compared += 1
+        if got != "two\n" or new_keys != 2:
+            ctx.violation("a dependency without declared outputs changed (its input was edited); the dependant's state changed (the dependency's digest "
+                          "differs) but it kept its cache key and was served the stale result",
+                          {"kind": "oracle", "oracle": "CLI: dependant of an output-less dependency gets a new key when that dependency changes", "algo": algo,
+                           "bundle_txt": got, "expected": "two\n", "new_cache_keys_in_second_build": new_keys, "expected_new_keys": 2, "log": log2[-600:]},
+                          signature="collision:output-less-dependency-changed")
     ctx.coverage["cli_builds"] = runs
     ctx.coverage["cli_variants_compared"] = compared
     ctx.coverage["evaluations"] += runs
